@@ -293,13 +293,39 @@ impl<S> SliceX for &[(u8, S)] {
     }
 }
 
-pub fn mk_slice<'a, I>(p: BP<'a, I>) -> BP<'a, I>
+pub fn mk_slice_from<'a, I>() -> BP<'a, I>
 where
     I: ValueInput<'a> + SliceInput<'a>,
     I::Slice: SliceX,
     I::Token: Tok,
     I::Span: SpanX,
 {
+    custom(|inp: &mut InputRef<'a, '_, I, Ex<'a, I>>| {
+        hook::cb();
+        let c = inp.cursor();
+        let rest: I::Slice = inp.slice_from(&c..);
+        Ok(Val::Seq(rest.syms().into_iter().map(Val::Tok).collect()))
+    })
+    .boxed()
+}
+
+pub fn mk_slice<'a, I>(p: BP<'a, I>, via_extra: bool) -> BP<'a, I>
+where
+    I: ValueInput<'a> + SliceInput<'a>,
+    I::Slice: SliceX,
+    I::Token: Tok,
+    I::Span: SpanX,
+{
+    if via_extra {
+        // the same slice through MapExtra::slice()
+        return p
+            .map_with(|_v: Val, e: &mut MapExtra<'a, '_, I, Ex<'a, I>>| {
+                hook::cb();
+                let s: I::Slice = e.slice();
+                Val::Seq(s.syms().into_iter().map(Val::Tok).collect())
+            })
+            .boxed();
+    }
     p.to_slice()
         .map(|s: I::Slice| {
             hook::cb();
@@ -359,7 +385,10 @@ where
     <Self as Input<'a>>::Token: Tok,
     <Self as Input<'a>>::Span: SpanX,
 {
-    fn slice_of(_p: BP<'a, Self>) -> Option<BP<'a, Self>> {
+    fn slice_of(_p: BP<'a, Self>, _via_extra: bool) -> Option<BP<'a, Self>> {
+        None
+    }
+    fn slice_from() -> Option<BP<'a, Self>> {
         None
     }
     fn any_ref() -> Option<BP<'a, Self>> {
@@ -375,8 +404,11 @@ where
 
 macro_rules! cap_fns {
     (slice) => {
-        fn slice_of(p: BP<'a, Self>) -> Option<BP<'a, Self>> {
-            Some(mk_slice::<Self>(p))
+        fn slice_of(p: BP<'a, Self>, via_extra: bool) -> Option<BP<'a, Self>> {
+            Some(mk_slice::<Self>(p, via_extra))
+        }
+        fn slice_from() -> Option<BP<'a, Self>> {
+            Some(mk_slice_from::<Self>())
         }
     };
     (borrow) => {
@@ -433,9 +465,11 @@ macro_rules! caps_arms_yes {
     ($cx:expr, $sub:ident, $g:expr) => {
         match $g {
             G::Slice(a) => {
+                let via_extra = crate::gram::count_nodes(a) % 2 == 0;
                 let a = $sub!(a);
-                I::slice_of(a).expect("harness: input kind lacks SliceInput")
+                I::slice_of(a, via_extra).expect("harness: input kind lacks SliceInput")
             }
+            G::SliceFrom => I::slice_from().expect("harness: input kind lacks SliceInput"),
             G::AnyRef => I::any_ref().expect("harness: input kind lacks BorrowInput"),
             G::SelectRef(v) => {
                 let mut mask = 0u64;
@@ -489,6 +523,49 @@ macro_rules! define_builder {
                                 Err(Rich::custom(inp.span_since(&before), "custom-b"))
                             }
                             _ => Err(Rich::custom(inp.span_since(&before), "custom-nomatch")),
+                        }
+                    }))
+                }
+                G::CustomApi(kind, a) => {
+                    let (kind, a) = (*kind, *a);
+                    let sub_many = just(I::Token::from_sym(a)).repeated().at_least(1).at_most(3).count();
+                    let sub_opt = just(I::Token::from_sym((a + 1) % 8)).or_not();
+                    $erase!(cx, custom(move |inp: &mut InputRef<'a, '_, I, Ex<'a, I>>| {
+                        hook::cb();
+                        let before = inp.cursor();
+                        match kind {
+                            0 => {
+                                // look without consuming, then consume
+                                let seen = inp.peek_maybe().map(|t| t.to_sym());
+                                match seen {
+                                    Some(s) if s == a => {
+                                        let got = inp.next_maybe().map(|t| t.to_sym());
+                                        Ok(Val::Seq(vec![Val::Tok(s), Val::Tok(got.unwrap_or(255))]))
+                                    }
+                                    _ => Err(Rich::custom(inp.span_since(&before), "api0-nomatch")),
+                                }
+                            }
+                            1 => {
+                                // consume one, checkpoint, consume a second, keep it only if it matches
+                                let t1 = inp.next_maybe().map(|t| t.to_sym());
+                                if t1 != Some(a) {
+                                    return Err(Rich::custom(inp.span_since(&before), "api1-nomatch"));
+                                }
+                                let m = inp.save();
+                                let t2 = inp.next_maybe().map(|t| t.to_sym());
+                                if t2 == Some(a) {
+                                    Ok(Val::Span(inp.span_since(&before).norm(), Box::new(Val::Num(2))))
+                                } else {
+                                    inp.rewind(m);
+                                    Ok(Val::Span(inp.span_since(&before).norm(), Box::new(Val::Num(1))))
+                                }
+                            }
+                            _ => {
+                                // run sub-parsers from inside a custom parser
+                                let n = inp.parse(&sub_many)?;
+                                let ok = inp.check(&sub_opt).is_ok();
+                                Ok(Val::Span(inp.span_since(&before).norm(), Box::new(Val::Seq(vec![Val::Num(n as u64), Val::Num(ok as u64)]))))
+                            }
                         }
                     }))
                 }
@@ -672,7 +749,7 @@ macro_rules! define_builder {
                 }
                 G::Rec(body) => $rec!($name, cx, &**body),
                 G::RecRef => cx.rec.last().expect("harness: RecRef outside Rec").clone(),
-                other @ (G::Slice(_) | G::AnyRef | G::SelectRef(_) | G::SpanFrom) => $caps_arms!(cx, sub, other),
+                other @ (G::Slice(_) | G::AnyRef | G::SelectRef(_) | G::SpanFrom | G::SliceFrom) => $caps_arms!(cx, sub, other),
                 other => $value_arms!($erase, sub, cx, other),
             }
         }
